@@ -142,42 +142,44 @@ Definition pop_wait_model (fuel : nat) (r : sring) (w : Z) (rest : SyncRing -> Z
       if w <? 0 then NoFuel else if w =? 0 then Ret (of_sring r', (0, false)) else rest (of_sring r') w 0
   end.
 
+(* proof scheme for the waits, independent of how the function arranges its tests: split on the outcome of the model's
+   first attempt, turn the equality for Push / Pop into a rewrite rule HP for the generated call, then case analysis on
+   every condition of both sides with one unrolling of the retry loop; a failed attempt leaves the state as it was, so
+   the loop is stuck (while_stuck); combinations of conditions that cannot occur are closed by lia *)
+Ltac wait_cases HP :=
+  repeat first
+  [ rewrite HP
+  | rewrite while_step
+  | rewrite while_stuck by (first [reflexivity | cbv beta iota zeta; rewrite ?HP; reflexivity])
+  | progress cbn [while bind]
+  | progress cbv beta iota zeta
+  | match goal with |- context [if ?b then _ else _] => destruct b eqn:? end ];
+  zb; try reflexivity; try (exfalso; lia).
+
 Theorem code_SyncPushWait : forall fuel r v w rest, 0 <= SyncRing_mask r ->
   g_SyncRing_PushWait fuel r v w rest = push_wait_model fuel (to_sring r) v w rest.
 Proof.
   intros fuel r v w rest Hm. unfold push_wait_model.
-  cbv beta zeta delta [g_SyncRing_PushWait].
-  destruct (w <? 0) eqn:Ew.
-  - destruct fuel as [|f]; [destruct (spush (to_sring r) v) as [[? []]|]; reflexivity|].
-    rewrite while_step. cbv beta iota delta [bind]. rewrite (code_SyncPush r v Hm).
-    destruct (spush (to_sring r) v) as [[r' b]|] eqn:E; [|reflexivity].
-    destruct b; cbv beta iota delta [mmap lift sst_res fst snd]; [reflexivity|].
-    apply spush_false_same in E as E'. subst r'. rewrite of_to_sring.
-    rewrite while_stuck; [reflexivity|reflexivity| |reflexivity].
-    rewrite (code_SyncPush r v Hm), E. cbv beta iota delta [mmap lift sst_res fst snd bind]. rewrite of_to_sring. reflexivity.
-  - cbv beta iota delta [bind]. rewrite (code_SyncPush r v Hm).
-    destruct (spush (to_sring r) v) as [[r' b]|]; [|reflexivity].
-    destruct b; cbv beta iota delta [mmap lift sst_res fst snd]; [reflexivity|].
-    destruct (w =? 0); reflexivity.
+  pose proof (code_SyncPush r v Hm) as HP.
+  repeat autounfold with go2v in HP |- *. cbv beta zeta delta [g_SyncRing_PushWait].
+  destruct (spush (to_sring r) v) as [[r' b]|] eqn:E; cbv beta iota delta [mmap lift sst_res fst snd] in HP.
+  - destruct b.
+    + destruct fuel; wait_cases HP.
+    + apply spush_false_same in E. subst r'. rewrite of_to_sring in *. destruct fuel; wait_cases HP.
+  - destruct fuel; wait_cases HP.
 Qed.
 
 Theorem code_SyncPopWait : forall fuel r w rest, 0 <= SyncRing_mask r ->
   g_SyncRing_PopWait fuel r w rest = pop_wait_model fuel (to_sring r) w rest.
 Proof.
   intros fuel r w rest Hm. unfold pop_wait_model.
-  cbv beta zeta delta [g_SyncRing_PopWait].
-  destruct (w <? 0) eqn:Ew.
-  - destruct fuel as [|f]; [destruct (spop (to_sring r)) as [[? [[] ?]]|]; reflexivity|].
-    rewrite while_step. cbv beta iota delta [bind]. rewrite (code_SyncPop r Hm).
-    destruct (spop (to_sring r)) as [[r' [b x]]|] eqn:E; [|reflexivity].
-    destruct b; cbv beta iota delta [mmap lift sst_swap_res fst snd]; [reflexivity|].
-    apply spop_false_same in E as E'. destruct E' as [-> ->]. rewrite of_to_sring.
-    rewrite while_stuck; [reflexivity|reflexivity| |reflexivity].
-    rewrite (code_SyncPop r Hm), E. cbv beta iota delta [mmap lift sst_swap_res fst snd bind]. rewrite of_to_sring. reflexivity.
-  - cbv beta iota delta [bind]. rewrite (code_SyncPop r Hm).
-    destruct (spop (to_sring r)) as [[r' [b x]]|] eqn:E; [|reflexivity].
-    destruct b; cbv beta iota delta [mmap lift sst_swap_res fst snd]; [reflexivity|].
-    destruct (w =? 0); reflexivity.
+  pose proof (code_SyncPop r Hm) as HP.
+  repeat autounfold with go2v in HP |- *. cbv beta zeta delta [g_SyncRing_PopWait].
+  destruct (spop (to_sring r)) as [[r' [b x]]|] eqn:E; cbv beta iota delta [mmap lift sst_swap_res fst snd] in HP.
+  - destruct b.
+    + destruct fuel; wait_cases HP.
+    + apply spop_false_same in E. destruct E as [-> ->]. rewrite of_to_sring in *. destruct fuel; wait_cases HP.
+  - destruct fuel; wait_cases HP.
 Qed.
 
 (* ---------------------------------------------------------------- Init / NewSync: the capacity switch and the numbering loop *)
@@ -225,34 +227,58 @@ Proof.
   unfold numbered, fresh_slots. rewrite Nat.sub_diag, app_nil_r, Nat2Z.id, map_map. reflexivity.
 Qed.
 
+Lemma numbered_length n k : (k <= n)%nat -> length (numbered n k) = n.
+Proof. intros H. unfold numbered. rewrite app_length, numbered_len_pre, repeat_length. lia. Qed.
+
 (* everything that follows the capacity switch (r.cap = c; r.mask = c - 1; make; the numbering loop), once the goal has
    the form  bind (m_makeA zero_item C) (fun v => ... while fuel ... ) = ...  with 0 <= C.  The loop is characterised by
-   its trajectory (Proofs/GoSemRecFacts.v: while_count): after k rounds the state is (k, ring with `numbered n k`);
+   its trajectory (Proofs/GoSemRecFacts.v: while_count): after k rounds the state is (k, ring with `numbered n k`) — or
+   (ring, k): a range loop keeps its hidden counter first, a three-clause loop has the variables in declaration order;
    the hypotheses of while_count are proved about the condition / body / post AS GENERATED, whatever their form. *)
-Ltac init_tail C HC :=
-  unfold m_makeA; destruct (Z.ltb_spec C 0) as [?|_]; [exfalso; lia|]; cbv beta iota delta [bind];
+Ltac init_loop_facts Hk :=
+  cbv beta iota zeta delta [SyncRing_values set_SyncRing_values SyncRing_cap SyncRing_mask SyncRing_head SyncRing_tail];
+  rewrite ?(numbered_split _ _ Hk);
+  repeat (rewrite ?m_getA_mid, ?m_setA_mid by (rewrite numbered_len_pre; reflexivity); cbv beta iota zeta delta [bind]).
+Ltac init_tail_with c b p s0 C st :=
+  rewrite (while_count c b p st (Z.to_nat C) s0);
+  [ lazymatch goal with |- context [Nat.ltb (Z.to_nat C) ?fuel] => destruct (Nat.ltb (Z.to_nat C) fuel); [|reflexivity] end;
+    cbv beta iota delta [bind of_sring slots shead stail scap smask u32 M32 wrap];
+    rewrite numbered_full, Z2Nat.id by lia; reflexivity
+  | cbv beta; rewrite numbered_0; reflexivity
+  | let k := fresh "k" in let Hk := fresh "Hk" in
+    intros k Hk; cbv beta iota zeta; split;
+    [ cbv beta iota zeta delta [SyncRing_values]; unfold zlenA; rewrite ?repeat_length, ?numbered_length by lia;
+      f_equal; apply Z.ltb_lt; lia
+    | eexists; split;
+      [ init_loop_facts Hk; reflexivity
+      | cbv beta iota zeta; rewrite numbered_S by reflexivity; rewrite Nat2Z.inj_succ; reflexivity ] ]
+  | cbv beta iota zeta delta [SyncRing_values]; unfold zlenA; rewrite ?repeat_length, ?numbered_length by lia;
+    rewrite Z.ltb_irrefl; reflexivity ].
+Ltac init_tail :=
   lazymatch goal with
-  | |- context [while ?fuel ?c ?b ?p ?s0] =>
-      lazymatch s0 with
-      | (_, mkSyncRing _ ?cp ?mk ?hd ?tl) =>
-          rewrite (while_count c b p (fun k => (Z.of_nat k, mkSyncRing (numbered (Z.to_nat C) k) cp mk hd tl)) (Z.to_nat C) s0);
-          [ destruct (Nat.ltb (Z.to_nat C) fuel); [|reflexivity];
-            cbv beta iota delta [bind of_sring slots shead stail scap smask u32 M32 wrap];
-            rewrite numbered_full, Z2Nat.id by lia; reflexivity
-          | rewrite numbered_0; reflexivity
-          | let k := fresh "k" in let Hk := fresh "Hk" in
-            intros k Hk; cbv beta iota zeta; split;
-            [ unfold zlenA; rewrite repeat_length; f_equal; apply Z.ltb_lt; lia
-            | eexists; split;
-              [ cbv beta iota zeta delta [SyncRing_values set_SyncRing_values SyncRing_cap SyncRing_mask SyncRing_head SyncRing_tail];
-                rewrite (numbered_split _ _ Hk);
-                rewrite ?m_getA_mid, ?m_setA_mid by (rewrite numbered_len_pre; reflexivity);
-                cbv beta iota delta [bind];
-                rewrite ?m_getA_mid, ?m_setA_mid by (rewrite numbered_len_pre; reflexivity);
-                cbv beta iota delta [bind]; reflexivity
-              | cbv beta iota; rewrite numbered_S by reflexivity; rewrite Nat2Z.inj_succ; reflexivity ] ]
-          | cbv beta iota; unfold zlenA; rewrite repeat_length, Z.ltb_irrefl; reflexivity ]
+  | |- context [m_makeA _ ?C] =>
+      assert (0 <= C) by (first [lia | apply Z.mod_pos_bound; lia]);
+      unfold m_makeA; destruct (Z.ltb_spec C 0) as [?|_]; [exfalso; lia|]; cbv beta iota zeta delta [bind];
+      lazymatch goal with
+      | |- context [while ?fuel ?c ?b ?p ?s0] =>
+          lazymatch s0 with
+          | (_, mkSyncRing _ ?cp ?mk ?hd ?tl) =>
+              init_tail_with c b p s0 C (fun k : nat => (Z.of_nat k, mkSyncRing (numbered (Z.to_nat C) k) cp mk hd tl))
+          | (mkSyncRing _ ?cp ?mk ?hd ?tl, _) =>
+              init_tail_with c b p s0 C (fun k : nat => (mkSyncRing (numbered (Z.to_nat C) k) cp mk hd tl, Z.of_nat k))
+          end
       end
+  end.
+
+(* the capacity switch: case analysis on every condition of both sides (the code's and the model's need not be written
+   the same way: `1 == cap` / `cap == 1`, `c&(c-1) > 0` / `!= 0`); combinations that cannot occur are closed by lia *)
+Ltac init_cases :=
+  repeat match goal with
+  | |- context [if ?b then _ else _] =>
+      lazymatch b with Nat.ltb _ _ => fail | _ => idtac end;
+      destruct b eqn:?; cbv beta iota zeta delta [bind option_map lift_fuel]
+  | |- context [match bits_loop ?f ?x ?q with _ => _ end] =>
+      destruct (bits_loop f x q); cbv beta iota zeta delta [bind option_map lift_fuel]
   end.
 
 (* for EVERY fuel, every receiver state and every requested capacity *)
@@ -265,17 +291,9 @@ Proof.
   cbv beta iota zeta delta [set_SyncRing_values set_SyncRing_cap set_SyncRing_mask set_SyncRing_head set_SyncRing_tail
     SyncRing_values SyncRing_cap SyncRing_mask SyncRing_head SyncRing_tail
     sync_panic_bound sync_small_request sync_min_cap roundup_base u32 M32 wrap].
-  destruct (c <=? 0); [reflexivity|].
-  destruct (1 =? c).
-  - cbv beta iota delta [bind]. init_tail 2 I.
-  - destruct (0 <? Z.land (c mod 2 ^ 32) ((c mod 2 ^ 32 - 1) mod 2 ^ 32)).
-    + unfold roundup_base, u32, M32.
-      destruct (bits_loop fuel (c mod 2 ^ 32) 0) as [pos|]; [|reflexivity].
-      cbv beta iota delta [option_map lift_fuel bind].
-      pose proof (Z.mod_pos_bound (Z.shiftl 1 pos) (2 ^ 32) ltac:(lia)).
-      init_tail (Z.shiftl 1 pos mod 2 ^ 32) I.
-    + cbv beta iota delta [bind]. pose proof (Z.mod_pos_bound c (2 ^ 32) ltac:(lia)).
-      init_tail (c mod 2 ^ 32) I.
+  assert (Hl : 0 <= Z.land (c mod 2 ^ 32) ((c mod 2 ^ 32 - 1) mod 2 ^ 32))
+    by (apply Z.land_nonneg; left; apply Z.mod_pos_bound; lia).
+  init_cases; zb; try (exfalso; lia); try reflexivity; init_tail.
 Qed.
 
 (* with enough fuel (64 rounds for roundupPowOfTwo, one more than the capacity for the numbering loop) Init is the model's
